@@ -401,9 +401,11 @@ func (w *world) AttesterDuties(ctx context.Context, opts *api.AttesterDutiesOpts
 	var res []*apiv1.AttesterDuty
 	for _, ea := range w.env.Att {
 		if ea.Epoch == uint64(opts.Epoch) {
+			clen, cas := committeeShape(ea.Duties)
 			for _, d := range ea.Duties {
 				res = append(res, &apiv1.AttesterDuty{Slot: phase0.Slot(d.Slot), ValidatorIndex: phase0.ValidatorIndex(d.Val),
-					CommitteeIndex: phase0.CommitteeIndex(d.Comm), ValidatorCommitteeIndex: d.VCI, CommitteeLength: 128, CommitteesAtSlot: 64})
+					CommitteeIndex: phase0.CommitteeIndex(d.Comm), ValidatorCommitteeIndex: d.VCI,
+					CommitteeLength: clen[[2]uint64{d.Slot, d.Comm}], CommitteesAtSlot: cas[d.Slot]})
 			}
 			break
 		}
